@@ -257,9 +257,9 @@ Qed.
 (* ---------- main theorem ---------- *)
 Definition covered (l1 o2 l2 i : Z) : Prop := (0 <= i < l1) \/ (l1 <= i < o2) \/ (o2 <= i < o2 + l2).
 
-Lemma unmodified_implies_full_cover verdict f arr contents increment dts :
+Lemma unmodified_implies_full_cover verdict f arr contents increment dts sf :
   int64s arr -> 0 <= increment ->
-  docModified verdict (lenZ f) f arr contents increment dts = TFalse ->
+  docModified verdict (lenZ f) f arr contents increment dts sf = TFalse ->
   exists l1 o2 l2 c inner,
     arr = [0; l1; o2; l2] /\ contents = Some c /\
     0 <= l1 /\ l1 + 2 <= o2 /\ 0 <= l2 /\ o2 + l2 = lenZ f /\
@@ -268,7 +268,7 @@ Lemma unmodified_implies_full_cover verdict f arr contents increment dts :
     (forall i, 0 <= i < lenZ f -> covered l1 o2 l2 i).
 Proof.
   intros HI Hinc. unfold docModified.
-  destruct (boundaryOK (lenZ f) arr increment dts) eqn:B; simpl; [|discriminate].
+  destruct (boundaryOK (lenZ f) arr increment dts sf) eqn:B; simpl; [|discriminate].
   destruct (signedData f arr contents) as [d|] eqn:S; [|discriminate].
   apply signedData_ok in S; [|exact HI].
   destruct S as (l1 & o2 & l2 & c & -> & -> & P1 & P2 & P3 & P4 & P5 & P6 & G & _).
@@ -293,10 +293,10 @@ Qed.
 (* ---------- one lemma per manipulation (all corollaries, for all files) ---------- *)
 Section Manipulations.
   Variable verdict : list N -> tri.
-  Variables (f : list N) (contents : option (list N)) (increment : Z) (dts : bool).
+  Variables (f : list N) (contents : option (list N)) (increment : Z) (dts : bool) (sf : subFilter).
   Hypothesis Hinc : 0 <= increment.
 
-  Local Notation DM arr := (docModified verdict (lenZ f) f arr contents increment dts).
+  Local Notation DM arr := (docModified verdict (lenZ f) f arr contents increment dts sf).
 
   Lemma appended_bytes_not_unmodified o1 l1 o2 l2 :
     int64s [o1; l1; o2; l2] -> o2 + l2 < lenZ f -> DM [o1; l1; o2; l2] <> TFalse.
